@@ -467,14 +467,19 @@ def call_ext(I: Any, name: str, args: List[Term], kwargs: Dict[str, Term], st: A
         if data_ is not None and sels_ is not None:
             from .interp import HeapObj, NeedSplit, decided_by
             kept_ = []
+            open_ = []
             for x_, s_ in zip(data_, sels_):
                 t_ = I.truth(s_, st)
                 d_ = bool(t_[1]) if is_c(t_) else decided_by(st.pc, t_)
                 if d_ is None:
-                    raise NeedSplit(t_)        # the statement is re-executed once per truth value of the selector
-                if d_:
+                    open_.append(t_)
+                elif d_:
                     kept_.append(x_)
-            return st.alloc(HeapObj("list", None, {"$born": c(getattr(I, "cur_serial", None))}, kept_, False, "iter:compress", True))
+            if not open_:
+                return st.alloc(HeapObj("list", None, {"$born": c(getattr(I, "cur_serial", None))}, kept_, False, "iter:compress", True))
+            if len(open_) <= 3:
+                raise NeedSplit(open_[0])        # the statement is re-executed once per truth value of the selector
+            # more value-dependent selectors than a case split can afford (2**n paths): not modelled (opaque result)
     if name == "itertools.accumulate" and len(args) == 1 and not kwargs:
         its_ = I.iter_items(args[0], st, ctx, node)
         if its_ is not None and (all(_textlike(x_) for x_ in its_) or all(is_int_term(x_) for x_ in its_)):
